@@ -138,6 +138,9 @@ func EmbeddedRecords(cs ChunkSpec) []byte {
 	return d[8 : 8+rootSz+l2]
 }
 
+// NoRefs: a chunk without references.
+func NoRefs(c chunks.Chunk) chunks.InsertAddrsCb { return noRefs(c) }
+
 func noRefs(c chunks.Chunk) chunks.InsertAddrsCb {
 	return func(ctx context.Context, addrs hash.HashSet, _ chunks.PendingRefExists) error { return nil }
 }
